@@ -813,6 +813,18 @@ func (t *tree) boolAttr(attrs map[string]string, key string, defaultValue bool) 
 func (t *tree) parseQuotedExpr(str string) ast.Node {
 	var tt = &tree{lex: lexExpr("", str)}
 	defer tt.lex.drain()
+	defer func() {
+		// an error in the nested parse knows neither the file nor the position of
+		// the expression: report it at the current token of the enclosing parse.
+		var e = recover()
+		if e == nil {
+			return
+		}
+		if _, ok := e.(runtime.Error); ok {
+			panic(e)
+		}
+		t.errorf("in expression %q: %v", str, e)
+	}()
 	return tt.parseExpr(0)
 }
 
